@@ -13,8 +13,7 @@ Lemma sort_args_no_field S t name args :
   get_field_def S t name = None -> snd (sort_args S t name args) = [].
 Proof.
   unfold get_field_def, sort_args. intros H. destruct args; [reflexivity|].
-  destruct (lookup t S) as [[k|fs ifaces|fs|ms|fs]|]; try reflexivity.
-  rewrite H. reflexivity.
+  destruct (lookup t S) as [[k|fs ifaces|fs|ms|fs]|]; try reflexivity; rewrite H; reflexivity.
 Qed.
 
 (* An undefined field: one error naming the selection (its key as path, its position as location),
@@ -35,24 +34,25 @@ Proof.
 Qed.
 Print Assumptions C10_unknown_field.
 
-(* An undeclared argument under an object container t: on every visit of that Field - the first or a
+(* An undeclared argument under an object or interface container t: on every visit of that Field - the first or a
    later one, after visits under the same or under OTHER container types, in the same or a later
    resolve of the parsed document (any state s) - the selection yields an error for the argument, no
    entry, and no resolver is invoked (the call log of the state is unchanged). *)
 Theorem C10_undeclared_argument :
-  forall S G frags any md vars fuel obj id alias name args fsels t fs ifaces fd a v result depth s,
-    lookup t S = Some (DObject fs ifaces) -> find_field name fs = Some fd ->
+  forall S G frags any md vars fuel obj id alias name args fsels t fd a v result depth s,
+    get_field_def S t name = Some fd ->
     In (a, v) args -> find_arg a (f_args fd) = None ->
     exists e ea, resolve_field S G frags any md vars (Datatypes.S fuel) obj id alias name args fsels t result depth s =
                  Done (result, errs_in (PKey (key_of alias name)) (e :: ea), visited s id t) /\
                  e_kind e = EBadArg.
 Proof.
-  intros S G frags any md vars fuel obj id alias name args fsels t fs ifaces fd a v result depth s Ht Hf Hin Hna.
+  intros S G frags any md vars fuel obj id alias name args fsels t fd a v result depth s Hg Hin Hna.
   assert (Hne : exists e ea, snd (sort_args S t name args) = e :: ea /\ e_kind e = EBadArg).
-  { unfold sort_args. destruct args as [|a0 args0]; [inversion Hin|]. rewrite Ht, Hf. cbn [snd].
-    set (flt := filter _ _).
-    assert (Hi : In (a, v) flt). { apply filter_In. split; auto. simpl. now rewrite Hna. }
-    destruct flt as [|x r]; [inversion Hi|]. simpl. eauto. }
+  { unfold sort_args, get_field_def in *. destruct args as [|a0 args0]; [inversion Hin|].
+    destruct (lookup t S) as [[k|fs ifaces|fs|ms|fs]|]; try discriminate; rewrite Hg; cbn [snd];
+      set (flt := filter _ _);
+      (assert (Hi : In (a, v) flt) by (apply filter_In; split; auto; simpl; now rewrite Hna));
+      (destruct flt as [|x r]; [inversion Hi|]); simpl; eauto. }
   destruct Hne as [e [ea [He Hk]]]. exists e, ea. split; auto.
   rewrite resolve_field_eq. cbv zeta. unfold visited.
   destruct (sort_args S t name args) as [sa se]. simpl in He. subst se. reflexivity.
